@@ -233,6 +233,17 @@ def run_cells(task: dict) -> dict:
                             rts.add("other")
                             same = False
                             o["detail"] = f"returned dtype {g.dtype} for declared {dtype}"
+                        if not same and rel == "narrow" and np.dtype(dtype).kind == "f" and g.shape == e.shape:
+                            # a NaN presented in a NARROWER dtype has to be widened on the way in; which payload the
+                            # wider NaN gets is left open by IEEE 754 (numpy keeps it, the protobuf / TensorFlow
+                            # conversions canonicalise it), so for this presentation a NaN only has to come back as
+                            # a NaN - every other value bit for bit
+                            with np.errstate(all="ignore"):
+                                gw_ = np.ascontiguousarray(g).astype(dtype).reshape(-1)
+                                ew_ = np.ascontiguousarray(e).astype(dtype).reshape(-1)
+                            nan_g, nan_e = np.isnan(gw_), np.isnan(ew_)
+                            if bool(np.array_equal(nan_g, nan_e)) and bits(gw_[~nan_e]) == bits(ew_[~nan_e]):
+                                same = True
                         if not same and g.shape == e.shape and np.dtype(dtype).kind == "f" and gd == np.dtype(dtype):
                             # classify: only signalling NaNs came back quiet (payload otherwise identical)?
                             u = {2: np.uint16, 4: np.uint32, 8: np.uint64}[np.dtype(dtype).itemsize]
@@ -248,6 +259,28 @@ def run_cells(task: dict) -> dict:
                                 o["kind"] = "snan-quieted"
                                 o["detail"] = f"{int(diff.sum())} signalling NaN(s) came back as quiet NaN(s), e.g. " \
                                               f"{hex(int(ew[diff][0]))} -> {hex(int(gw[diff][0]))}"
+                        if not same and g.shape == e.shape and np.dtype(dtype).kind == "f" and "kind" not in o:
+                            # classify: only subnormal values (of the declared or of the stored, narrower/wider dtype)
+                            # came back as zero of the same sign, everything else identical?
+                            with np.errstate(all="ignore"):
+                                gv = np.ascontiguousarray(g).astype("float64").reshape(-1)
+                                ev = np.ascontiguousarray(e).astype("float64").reshape(-1)
+                            thr = float(np.finfo(np.dtype(dtype)).tiny)
+                            for other in ("float32", "float16"):
+                                if np.dtype(other).itemsize < np.dtype(dtype).itemsize or other == dtype:
+                                    thr = max(thr, float(np.finfo(other).tiny)) if rel == "narrow" or other == dtype \
+                                        else thr
+                            if how == "pylist":
+                                thr = max(thr, float(np.finfo("float32").tiny)) if dtype == "float32" else thr
+                            with np.errstate(all="ignore"):
+                                d_ = ~((gv == ev) | (np.isnan(gv) & np.isnan(ev)))
+                                d_ |= (np.signbit(gv) != np.signbit(ev)) & ~np.isnan(ev)
+                                flushed = (np.abs(ev) > 0) & (np.abs(ev) < thr) & (gv == 0) & \
+                                          (np.signbit(gv) == np.signbit(ev))
+                            if d_.any() and bool(np.all(flushed[d_])):
+                                o["kind"] = "subnormal-flushed"
+                                o["detail"] = f"{int(d_.sum())} subnormal value(s) came back as zero, e.g. " \
+                                              f"{ev[d_][0]!r} -> {gv[d_][0]!r}"
                         if not same:
                             eq = False
                             if not o["detail"]:
@@ -306,6 +339,14 @@ def run(ctx: Ctx) -> None:
                 tasks.append({"fmt": fmt, "compression": comp, "dtype": dt, "shape_offset": si % len(SHAPES),
                               "nattrs": 1 + si % 4, "presentations": PRESENTATIONS, "variants": 3 if q else 6,
                               "readers": readers_all, "seed": ctx.seed * 1000 + si})
+    if q:
+        # the value windows of the quick tier are narrower than the thorough tier's; the two cells in which only the
+        # wider windows exhibit a recorded finding (F4, F11) are run with the wide windows in the quick tier as well, so
+        # that every listed finding is reproduced - and re-examined - by every run
+        for fmt_, dt_, pres_ in (("npz", "uint64", "pylist"), ("npz", "float64", "narrow")):
+            ref = next((t for t in tasks if t["fmt"] == fmt_ and t["dtype"] == dt_ and t["compression"] == ""), None)
+            if ref is not None:
+                tasks.append(dict(ref, presentations=[pres_], variants=6, shape_offset=1, nattrs=4))
     try:
         outs = H.run_histories(tasks, fn=run_cells)
     finally:
